@@ -432,6 +432,61 @@ def run_xproc():
             'note': 'real fork pool, concrete (auxiliary)'}
 
 
+def run_deep():
+    """Auxiliary (concrete): trees nested deeper than the recursion limit
+    through __eq__, __hash__, deepcopy, pickling, traversals and counters."""
+    import copy
+    import pickle
+    import sys
+    import time
+    from ddsmt import nodes
+    from ddsmt.nodes import Node
+    t0 = time.time()
+    old = sys.getrecursionlimit()
+    sys.setrecursionlimit(1000)
+    bad = None
+    try:
+        def deep(d, leaf):
+            n = Node(leaf)
+            for _ in range(d):
+                n = Node('f', n, 'y')
+            return n
+        a, b, c = deep(4000, 'x'), deep(4000, 'x'), deep(4000, 'z')
+        checks = [
+            ('__eq__ equal', lambda: (a == b) is True),
+            ('__eq__ different', lambda: (a == c) is False),
+            ('hash', lambda: a.__hash__() == b.__hash__()),
+            ('deepcopy', lambda: copy.deepcopy(a) == a),
+            ('pickle', lambda: pickle.loads(pickle.dumps(a)) == a),
+            ('dfs', lambda: sum(1 for _ in nodes.dfs([a])) == 12001),
+            ('bfs', lambda: sum(1 for _ in nodes.bfs([a])) == 12001),
+            ('count_nodes', lambda: nodes.count_nodes([a]) == 12001),
+            ('count_exprs', lambda: nodes.count_exprs([a]) == 4000),
+            ('reduplicate', lambda: nodes.reduplicate([a, a])[1] == a),
+            ('substitute', lambda: nodes.substitute(
+                [a], {Node('x'): Node('w')})[0] == deep(4000, 'w')),
+        ]
+        for name, f in checks:
+            try:
+                ok = f()
+            except RecursionError:
+                ok = 'RecursionError'
+            except Exception as e:
+                ok = f'{type(e).__name__}: {e}'
+            if ok is not True and bad is None:
+                bad = ({'operation': name},
+                       f'{name} on a tree of depth 4000: {ok!r}')
+    finally:
+        sys.setrecursionlimit(old)
+    return {'status': 'VIOLATED' if bad else 'CONFIRMED',
+            'cex': bad[0] if bad else None,
+            'exc': {'type': 'Violation', 'msg': bad[1]} if bad else None,
+            'paths': 11, 'paths_ok': 11, 'samples': [{'depth': 4000}],
+            'solver_checks': 0, 'solver_seconds': 0.0,
+            'wall_s': round(time.time() - t0, 2),
+            'note': 'concrete deep trees (auxiliary)'}
+
+
 def _chunks(xs, n):
     k = max(1, (len(xs) + n - 1) // n)
     return [xs[i:i + k] for i in range(0, len(xs), k)]
@@ -485,6 +540,8 @@ def partitions(tier):
         parts.append({'name': f'walk_{k}', 'fn': make_walk(ch),
                       'setup': _setup_s, 'budget_s': bud,
                       'bounds': {'shapes': len(ch), 'max_depth': '0..5|None'}})
+    parts.append({'name': 'deep', 'kind': 'native', 'run': run_deep,
+                  'budget_s': 300})
     parts.append({'name': 'xproc', 'kind': 'native', 'run': run_xproc,
                   'budget_s': 120})
     parts.append({'name': 'bsearch', 'kind': 'native',
@@ -520,6 +577,9 @@ def replay(part, cex):
             return replay_walk(ch[int(k)], cex)
         if kind == 'bsearch':
             return _bsearch_check(cex['n'])
+        if kind == 'deep':
+            r = run_deep()
+            return r['exc']['msg'] if r['exc'] else None
         if kind == 'xproc':
             r = run_xproc()
             return r['exc']['msg'] if r['exc'] else None
